@@ -52,8 +52,13 @@ def run(chk: lib.Check):
     stats = collections.Counter()
     ins_cases, py_cases, del_cases = [], [], []
 
+    import tempfile
     for spec0 in corpus.model_specs(chk.tier)[: (1 if quick else 3)]:
-        model = corpus.load(spec0)
+        # work on a scratch copy so that the final state can be saved with model.save() and reloaded
+        scratch_dir = pathlib.Path(tempfile.mkdtemp(prefix="c08-"))
+        shutil.copytree(pathlib.Path(spec0["path"]).parent, scratch_dir / "m", ignore=shutil.ignore_patterns("*.license"))
+        spec_s = dict(spec0, path=scratch_dir / "m" / pathlib.Path(spec0["path"]).name)
+        model = corpus.load(spec_s)
         rng = random.Random(f"{chk.seed}:{spec0['name']}")
         uuidmod.uuid4 = lambda rng=rng: uuidmod.UUID(int=rng.getrandbits(128), version=4)
         A = graph.Abstraction()
@@ -210,7 +215,7 @@ def run(chk: lib.Check):
                     continue
                 # accepted: in-hand list, fresh list and the plain Python list agree
                 if fresh != expected or inhand != expected:
-                    dupnote = "still-present" if (opk == "del" and kind == "link" and fresh == ref) else "duplicates" if len(set(ref)) != len(ref) else ("rootelem" if getattr(acc, "rootelem", None) else ("neg" if "insert(-" in desc or "[-" in desc else "nonneg"))
+                    dupnote = "still-present" if (kind == "link" and ((opk == "del" and fresh == ref) or (opk == "clear" and fresh and set(fresh) <= set(ref)))) else "duplicates" if len(set(ref)) != len(ref) else ("rootelem" if getattr(acc, "rootelem", None) else ("neg" if "insert(-" in desc or "[-" in desc else "nonneg"))
                     chk.violation(f"list-mismatch:{kind}:{opk}:{dupnote}",
                                   f"{desc}: python list {expected[-6:]}, in hand {inhand[-6:]}, freshly fetched {fresh[-6:]}",
                                   {"model": spec0["name"], "op": desc, "python": expected, "in_hand": inhand, "fresh": fresh, "before": ref})
@@ -270,31 +275,55 @@ def run(chk: lib.Check):
                 ref = expected
                 lst = getattr(o, name) if inhand != expected else lst
         # save + reload: the lists come back as written
-        with lib.scratch("c08-") as tmp:
-            try:
-                src = pathlib.Path(spec0["path"]).parent
-                shutil.copytree(src, tmp / "m", ignore=shutil.ignore_patterns("*.license"))
-                handler_model = model
-                for p, tree in model._loader.trees.items():
-                    if p.parts[0] == "\0":
-                        with open(tmp / "m" / pathlib.PurePosixPath(*p.parts[1:]), "wb") as f:
-                            tree.write_xml(f)
-                kw = {k: v for k, v in spec0.items() if k not in ("name", "path")}
-                re = capellambse.MelodyModel(str(tmp / "m" / pathlib.Path(spec0["path"]).name), **kw)
-                for (clsname, name), (o, acc, n0, kind) in targets:
-                    if not runner._alive(o):
-                        continue
+        try:
+            model.save()
+            kw = {k: v for k, v in spec_s.items() if k not in ("name", "path")}
+            re = capellambse.MelodyModel(str(spec_s["path"]), **kw)
+            for (clsname, name), (o, acc, n0, kind) in targets:
+                if not runner._alive(o):
+                    continue
+                try:
+                    a = uuids(getattr(o, name))
+                    b = uuids(getattr(re.by_uuid(o.uuid), name))
+                except Exception:  # noqa: BLE001
+                    continue
+                stats["reload-compared"] += 1
+                if kind in ("RequirementsRelationAccessor", "ElementRelationAccessor"):
+                    a, b = sorted(map(str, a)), sorted(map(str, b))   # computed by a model-wide search: index order, not XML order
+                if a != b:
+                    detail = []
                     try:
-                        a = uuids(getattr(o, name))
-                        b = uuids(getattr(re.by_uuid(o.uuid), name))
-                    except Exception:  # noqa: BLE001
-                        continue
-                    stats["reload-compared"] += 1
-                    if a != b:
-                        chk.violation(f"reload-mismatch:{kind}", f"{clsname}({o.uuid}).{name}: {a[-5:]} in memory, {b[-5:]} after save+reload", {"model": spec0["name"]})
-                del re
-            except Exception as e:  # noqa: BLE001
-                chk.violation(f"save-reload-fails:{type(e).__name__}", f"save+reload after list edits fails: {e!r}", {"model": spec0["name"]})
+                        from lxml import etree as _et
+                        for x in getattr(o, name):
+                            detail.append(_et.tostring(x._element).decode()[:300])
+                            for attr_ in ("source", "target"):
+                                tid = (x._element.get(attr_) or "").split("#")[-1]
+                                for nm_, mdl_ in (("memory", model), ("reloaded", re)):
+                                    try:
+                                        t_ = mdl_.by_uuid(tid)
+                                        detail.append(f"{attr_} {tid} in {nm_}: {type(t_).__name__} in {mdl_._loader.find_fragment(t_._element)}")
+                                    except Exception as exq:  # noqa: BLE001
+                                        detail.append(f"{attr_} {tid} in {nm_}: {exq!r}")
+                    except Exception as exd:  # noqa: BLE001
+                        detail.append(repr(exd))
+                    if kind == "RequirementsRelationAccessor":
+                        try:
+                            from capellambse.extensions.reqif import _capellareq as cr, _requirements as rq
+                            o2 = re.by_uuid(o.uuid)
+                            for i in re.search(cr.CapellaIncomingRelation, rq.InternalRelation, cr.CapellaOutgoingRelation):
+                                try:
+                                    s_, t_ = i.source, i.target
+                                    detail.append(f"reloaded relation {i.uuid[:8]}: {type(s_).__name__} -> {type(t_).__name__} involves owner: {o2 in (s_, t_)}")
+                                except Exception as exr:  # noqa: BLE001
+                                    detail.append(f"reloaded relation {i.uuid[:8]}: {exr!r}")
+                        except Exception as exr:  # noqa: BLE001
+                            detail.append(repr(exr))
+                    chk.violation(f"reload-mismatch:{kind}", f"{clsname}({o.uuid}).{name}: {a[-5:]} in memory, {b[-5:]} after save+reload", {"model": spec0["name"], "members_xml": detail})
+            del re
+        except Exception as e:  # noqa: BLE001
+            chk.violation(f"save-reload-fails:{type(e).__name__}", f"save+reload after list edits fails: {e!r}", {"model": spec0["name"]})
+        finally:
+            shutil.rmtree(scratch_dir, ignore_errors=True)
         del model
     # pure list semantics: model vs CPython
     prng = random.Random(chk.seed)
